@@ -553,7 +553,7 @@ def check_inmem(i, ctx):
     judge_write(m, lib_den(m), dict(route="constructor", devs=[]), case, ctx)
 
 
-ROUTES = ["OsuToQua", "BMSToQua", "SMToQua", "O2JToQua", "OsuToQua/rate", "read/default-meta"]
+ROUTES = ["OsuToQua", "BMSToQua", "SMToQua", "O2JToQua", "OsuToQua/rate", "read/default-meta", "write/edit/write"]
 
 
 def check_route(route, ctx):
@@ -565,7 +565,14 @@ def check_route(route, ctx):
     ctx.case()
     ctx.state(("qua-route", route), nontrivial=True)
     try:
-        if route == "OsuToQua":
+        if route == "write/edit/write":
+            m = starts.make("qua", "plain")
+            m.initial_scroll_velocity = 1.0
+            m.write()
+            m.hits.offset += 1000
+            m.holds.length = m.holds.length * 2
+            m.bpms.bpm = m.bpms.bpm * 2
+        elif route == "OsuToQua":
             m = C.OsuToQua.convert(starts.make("osu", "plain"))
         elif route == "OsuToQua/rate":
             m = C.OsuToQua.convert(starts.make("osu", "plain").rate(1.5))
